@@ -93,6 +93,55 @@ def run(chk):
     finally:
         import shutil
         shutil.rmtree(wd, ignore_errors=True)
+    # (D) arrival orders at the level of the connection: every datagram of every flight exactly once, permuted, no timers
+    import random
+    rng = random.Random(chk.seed * 31 + 5)
+    base = {"full12": dict(ver="12", helloVerify=True, cidC=-1, cidS=-1), "nohv12": dict(ver="12", helloVerify=False, cidC=-1, cidS=-1),
+            "clientauth12": dict(ver="12", helloVerify=True, clientAuth=4, clientCert=True, verify=True, cidC=-1, cidS=-1),
+            "psk12": dict(ver="12", auth="psk", suite="TLS_PSK_WITH_AES_128_GCM_SHA256", helloVerify=True, cidC=-1, cidS=-1),
+            "cid12": dict(ver="12", helloVerify=True, cidC=4, cidS=2),
+            "nohrr13": dict(ver="13", helloVerify=False, curvesC=[29], curvesS=[29], cidC=-1, cidS=-1),
+            "hrr13": dict(ver="13", helloVerify=True, cidC=-1, cidS=-1),
+            "clientauth13": dict(ver="13", helloVerify=False, curvesC=[29], curvesS=[29], clientAuth=4, clientCert=True, verify=True, cidC=-1, cidS=-1)}
+    acases = []
+    for name, sc in sorted(base.items()):
+        for mtu in ((120, 300) if chk.quick else (100, 120, 200, 300, 500)):
+            for order in ["reverse", "rotate"] + ["random"] * (2 if chk.quick else 8):
+                acases.append({"name": "%s/mtu%d/%s#%d" % (name, mtu, order, len(acases)), "scen": dict(sc, mtu=mtu), "order": order,
+                               "seed": rng.randint(1, 10 ** 9)})
+    wd = vlib.scratch("c12a")
+    try:
+        inp, out = os.path.join(wd, "in.json"), os.path.join(wd, "out.ndjson")
+        json.dump(acases, open(inp, "w"))
+        rc, txt = vlib.run_test(root, "TestVerifC12Arrival", {"VERIF_IN": inp, "VERIF_OUT": out}, timeout=2400)
+        if rc != 0 or not os.path.exists(out):
+            raise vlib.Inconclusive("arrival-order harness failed: " + txt[-2000:])
+        arows = vlib.read_ndjson(out)
+    finally:
+        import shutil
+        shutil.rmtree(wd, ignore_errors=True)
+    if len(arows) != len(acases):
+        raise vlib.Inconclusive("arrival-order harness ran %d of %d cases" % (len(arows), len(acases)))
+    lab = batches = done = 0
+    for c, r in zip(acases, arows):
+        if r.get("lab"):
+            lab += 1
+            chk.note("arrival case %s: lab: %s" % (c["name"], r["lab"]))
+            continue
+        chk.evaluated(key="arrival:" + c["name"].split("#")[0] + str(c["seed"]))
+        batches += r["batches"]
+        done += 1 if r["completed"] else 0
+        if not r["completed"] or not r["delivered"]:
+            chk.violation({"kind": "arrival-order", "what": "every datagram of every flight arrived exactly once (%s order, %d datagrams, %d multi-datagram "
+                           "batches) and no timer fired, yet the handshake did not complete%s: a message whose fragments had all arrived was not "
+                           "surfaced (client: %s, server: %s)" % (c["order"], r["datagrams"], r["batches"],
+                                                                  " (" + r["stuck"] + ")" if r.get("stuck") else "", r.get("cerr") or "pending", r.get("serr") or "pending"),
+                           "acase": c})
+    if lab > max(2, len(acases) // 20):
+        raise vlib.Inconclusive("%d of %d arrival cases could not run" % (lab, len(acases)))
+    if batches < len(acases) and not chk.violations:
+        raise vlib.Inconclusive("vacuous arrival-order part: only %d multi-datagram batches" % batches)
+    chk.parts["arrival_orders_conn"] = {"cases": len(acases), "completed": done, "multi_datagram_batches": batches, "lab_skipped": lab}
     chk.coverage["rule"] = ("one replay script per explored edge of the FragmentBuffer model (distinct = distinct (depth,last step)); "
                             "sender: every (length, MTU) pair with MTU 1..24 (64 thorough) and length 0..3*MTU+1, seeded pairs up to 7000 bytes, "
                             "and the byte boundaries of the 24-bit length / offset fields (255..2^24-1) at MTU 1200 and 16000")
@@ -106,5 +155,20 @@ def run(chk):
 def replay(chk, path):
     facts = json.load(open(path))
     binary = vlib.build("fragmentbuffer")
+    if "acase" in facts:
+        root = vlib.build("root")
+        wd = vlib.scratch("c12a")
+        try:
+            inp, out = os.path.join(wd, "in.json"), os.path.join(wd, "out.ndjson")
+            json.dump([facts["acase"]], open(inp, "w"))
+            vlib.run_test(root, "TestVerifC12Arrival", {"VERIF_IN": inp, "VERIF_OUT": out}, timeout=600)
+            rows = vlib.read_ndjson(out) if os.path.exists(out) else []
+        finally:
+            import shutil
+            shutil.rmtree(wd, ignore_errors=True)
+        chk.evaluated(key="replay")
+        if rows and not rows[0].get("lab") and not (rows[0]["completed"] and rows[0]["delivered"]):
+            chk.violation(dict(facts, replayed=True), replay=path)
+        return
     if "script" in facts:
-        replay_scripts(chk, binary, [facts["script"]], facts.get("mode") == "honest", facts.get("mode", "replay"))
+        replay_scripts(chk, binary, [facts["script"]], str(facts.get("mode", "")).startswith("honest"), str(facts.get("mode", "replay")).split("+")[0])
